@@ -178,6 +178,19 @@ def run_case(case):
     if kind == "system":
         direct = base.apply_response(s, direction=d, polarization=pol, force_real=fr_).values
         v.close("antenna system delegates the response to its antenna", float(np.max(np.abs(direct - ov))) / sc_nat, 1e-15)
+    # ---- the same antenna object re-oriented / re-parameterised after it has been used must answer like a fresh one
+    R2 = gen.random_rotation(rng)
+    z2, x2 = R2 @ z, R2 @ x
+    ant.set_orientation(z_axis=z2, x_axis=x2)
+    fresh = mk(z2, x2)
+    got2 = np.array(ant.apply_response(s, direction=d, polarization=pol, force_real=fr_).values)
+    want2 = np.array(fresh.apply_response(s, direction=d, polarization=pol, force_real=fr_).values)
+    v.close("after set_orientation the used antenna responds like a freshly oriented one", float(np.max(np.abs(got2 - want2))) / sc_nat, 1e-10 + 3 * th_tol, kind=kind, geom=geom)
+    if kind != "dipole":
+        base.efficiency = eff * 0.5
+        base.antenna_factor = af * 2.0
+        got3 = np.array(ant.apply_response(s, direction=d, polarization=pol, force_real=fr_).values)
+        v.close("changing efficiency / antenna factor of a used antenna takes effect", float(np.max(np.abs(got3 - want2 * (0.5 if vt == "voltage" else 0.25)))) / sc_nat, 1e-10 + 3 * th_tol, kind=kind, vtype=vt)
     sample = {"kind": kind, "geometry": geom, "z_axis": base.z_axis.tolist(), "direction": d.tolist(), "polarization": pol.tolist(), "value_type": vt,
               "theta_deg": float(np.degrees(th)), "factor": float(fac), "peak_response": float(np.max(np.abs(ov)))}
     return v.result(decided=True, nontrivial=bool(np.max(np.abs(ov)) > 1e-9 * sc_nat), sample=sample)
